@@ -91,10 +91,15 @@ func c12SchedScenario(c *fw.Ctx, sp c12Spec) schedScenario {
 				sh = sys.NewStore(sys.StoreSpec{Backend: sp.Backend}, nil)
 				st := sh.Store
 				now := time.Now()
+				inInit := true
 				add := func(key, mb string, age time.Duration) {
 					id, err := st.AddMessage(sys.Delivery(mb, "f@x.test", []string{"t@x.test"}, key, "Subject: r\r\n\r\nretention "+key+"\r\n", now.Add(-age)))
 					if err != nil {
-						panic("VERIF-INFRA add: " + err.Error())
+						if inInit {
+							panic("VERIF-INFRA add: " + err.Error())
+						}
+						addProb("delivery-failed-during-scan", fmt.Sprintf("the delivery of %s to %s, made while the retention scan was running, failed: %v", key, mb, err))
+						return
 					}
 					idmu.Lock()
 					ids[key] = id
@@ -128,7 +133,7 @@ func c12SchedScenario(c *fw.Ctx, sp c12Spec) schedScenario {
 					rs := storage.NewRetentionScanner(config.Storage{RetentionPeriod: time.Hour, RetentionSleep: 0}, st)
 					ths := []vsched.Thread{
 						{Name: "scanner", F: func() { scanErr = rs.DoScan(ctx); scanDone = true }},
-						{Name: "deliverer", F: func() { add("n3", "boxe", 0); add("n1", "boxa", 0); add("n2", "boxd", 0) }},
+						{Name: "deliverer", F: func() { inInit = false; add("n3", "boxe", 0); add("n1", "boxa", 0); add("n2", "boxd", 0) }},
 						{Name: "remover", F: func() {
 							// a young message, the last message of a mailbox, and an EXPIRED message
 							// that the scanner may be about to purge itself
